@@ -216,6 +216,21 @@ func init() {
 			"WithInput (binder/reflection) is outside this harness",
 		},
 	}
+	props["C05"] = PropSpec{
+		ID: "C05",
+		Runs: []HarnessRun{
+			{Rel: ".", Dir: "fiber", Entry: "VH_C05_isolation", Cases: tierCases([]int{0, 2, 4, 6, 8, 10, 12, 14, 16, 1, 13}, rangeInts(0, 18)), Reach: []string{"compared"}, MaxPaths: 100000},
+		},
+		Bounds: map[string]string{
+			"quick":    "1 preceding request (2 for two cases) on a pooled context, performing one of 9 operations (a legitimate flash cookie followed by a probe that itself carries 1..3 crafted cookie bytes, Bind auto-handling, redirect state, ViewBind, response header+status, BaseURL, handler error, flash cookie of 1..3 arbitrary bytes, handler panic) with symbolic route parameters, followed by a probe (with/without a symbolic parameter) whose 15 observations are compared with the same probe on a fresh app",
+			"thorough": "all 8 operations x {1, 2} preceding requests",
+		},
+		Assumptions: []string{
+			"each request gets a fresh fasthttp.RequestCtx: only fiber-owned pooled state (DefaultCtx, Redirect) is in scope; fasthttp's own recycling is assumed correct",
+			"sync.Pool reuse is LIFO (the probe receives the context released by the preceding request); a fresh context is the reference world",
+			"concurrent use of one context and state the application shares on purpose are outside",
+		},
+	}
 	props["SMOKEFAIL"] = PropSpec{
 		ID: "SMOKEFAIL",
 		Runs: []HarnessRun{
